@@ -506,7 +506,7 @@ void Sim::send_from(Sock *s, const Addr &dst, const Bytes &data)
 	Dgram d;
 	d.dst = dst; d.data = data; d.src_host = s->host; d.serial = ++dgram_serial;
 	d.src = s->local;
-	if (d.src.is_any() || d.src.fam != dst.fam) {
+	if (d.src.is_any() || d.src.fam != dst.fam || (dst.fam == AF_INET && dst.a[0] == 127)) {
 		const Host &h = hosts[s->host];
 		Addr a = dst.fam == AF_INET6 ? h.ip6 : h.ip4;
 		if (dst.fam == AF_INET && dst.a[0] == 127) a = Addr::v4("127.0.0.1", 0);
